@@ -14,6 +14,10 @@ type frame struct {
 	freeVars    []*ObjectPtr
 	ip          int
 	basePointer int
+	// discard is set when the frame was re-used by a self call whose result
+	// the function throws away ("f(x); return"): the frame then returns
+	// undefined, whatever the re-entered body returns.
+	discard bool
 }
 
 // VM is a virtual machine that executes the bytecode compiled by Compiler.
@@ -618,6 +622,9 @@ func (v *VM) run() {
 					if nextOp == parser.OpReturn ||
 						(nextOp == parser.OpPop &&
 							parser.OpReturn == v.curInsts[v.ip+2]) {
+						if nextOp == parser.OpPop {
+							v.curFrame.discard = true
+						}
 						for p := 0; p < numArgs; p++ {
 							v.stack[v.curFrame.basePointer+p] =
 								v.stack[v.sp-numArgs+p]
@@ -636,6 +643,7 @@ func (v *VM) run() {
 				v.curFrame.ip = v.ip // store current ip before call
 				v.curFrame = &(v.frames[v.framesIndex])
 				v.curFrame.fn = callee
+				v.curFrame.discard = false
 				v.curFrame.freeVars = callee.Free
 				v.curFrame.basePointer = v.sp - numArgs
 				v.curInsts = callee.Instructions
@@ -685,6 +693,9 @@ func (v *VM) run() {
 			if int(v.curInsts[v.ip]) == 1 {
 				retVal = v.stack[v.sp-1]
 			} else {
+				retVal = UndefinedValue
+			}
+			if v.curFrame.discard {
 				retVal = UndefinedValue
 			}
 			//v.sp--
